@@ -962,16 +962,27 @@ func (i *BigInt) StrictEqualVal(other Value) Value {
 	return i.EqualVal(other)
 }
 
+// `other` is only negative when the negation of the
+// smallest integer of its type wrapped around,
+// it denotes a shift by more bits than any BigInt can have.
 func rightBitshiftBigInt[T SimpleInt](i *BigInt, other T) Value {
 	if other < 0 {
-		return SmallInt(0).ToValue()
+		return bigIntSignFill(i)
 	}
-	iGo := i.ToGoBigInt()
-	result := ToElkBigInt(iGo.Rsh(iGo, uint(other)))
+	// the receiver must not be mutated
+	result := ToElkBigInt((&big.Int{}).Rsh(i.ToGoBigInt(), uint(other)))
 	if result.IsSmallInt() {
 		return result.ToSmallInt().ToValue()
 	}
 	return Ref(result)
+}
+
+// Result of shifting `i` to the right by more bits than it has.
+func bigIntSignFill(i *BigInt) Value {
+	if i.ToGoBigInt().Sign() < 0 {
+		return SmallInt(-1).ToValue()
+	}
+	return SmallInt(0).ToValue()
 }
 
 // Bitshift to the right by another integer value and return an error
@@ -1030,6 +1041,9 @@ func (i *BigInt) RightBitshiftBigInt(other *BigInt) Value {
 			return leftBitshiftBigInt(i, -oSmall)
 		}
 		return rightBitshiftBigInt(i, oSmall)
+	}
+	if other.ToGoBigInt().Sign() > 0 {
+		return bigIntSignFill(i)
 	}
 	return SmallInt(0).ToValue()
 }
@@ -1093,13 +1107,13 @@ func leftBitshiftBigInt[T SimpleInt](i *BigInt, other T) Value {
 	if other < 0 {
 		return SmallInt(0).ToValue()
 	}
-	iGo := i.ToGoBigInt()
-	return Ref(ToElkBigInt(iGo.Lsh(iGo, uint(other))))
+	// the receiver must not be mutated
+	return Ref(ToElkBigInt((&big.Int{}).Lsh(i.ToGoBigInt(), uint(other))))
 }
 
 func leftBitshiftBigIntUnsigned[T SimpleInt](i *BigInt, other T) *BigInt {
-	iGo := i.ToGoBigInt()
-	return ToElkBigInt(iGo.Lsh(iGo, uint(other)))
+	// the receiver must not be mutated
+	return ToElkBigInt((&big.Int{}).Lsh(i.ToGoBigInt(), uint(other)))
 }
 
 // Bitshift to the left by another integer value and return an error
@@ -1162,29 +1176,46 @@ func (i *BigInt) LeftBitshiftInt(other Value) Value {
 
 func (i *BigInt) LeftBitshiftBigInt(other *BigInt) Value {
 	if other.IsSmallInt() {
-		oSmall := other.ToSmallInt()
-		return leftBitshiftBigInt(i, oSmall)
+		return i.LeftBitshiftSmallInt(other.ToSmallInt())
+	}
+	if other.ToGoBigInt().Sign() < 0 {
+		return bigIntSignFill(i)
 	}
 	return SmallInt(0).ToValue()
 }
 
 func (i *BigInt) LeftBitshiftSmallInt(other SmallInt) Value {
+	if other < 0 {
+		return rightBitshiftBigInt(i, -other)
+	}
 	return leftBitshiftBigInt(i, other)
 }
 
 func (i *BigInt) LeftBitshiftInt64(other Int64) Value {
+	if other < 0 {
+		return rightBitshiftBigInt(i, -other)
+	}
 	return leftBitshiftBigInt(i, other)
 }
 
 func (i *BigInt) LeftBitshiftInt32(other Int32) Value {
+	if other < 0 {
+		return rightBitshiftBigInt(i, -other)
+	}
 	return leftBitshiftBigInt(i, other)
 }
 
 func (i *BigInt) LeftBitshiftInt16(other Int16) Value {
+	if other < 0 {
+		return rightBitshiftBigInt(i, -other)
+	}
 	return leftBitshiftBigInt(i, other)
 }
 
 func (i *BigInt) LeftBitshiftInt8(other Int8) Value {
+	if other < 0 {
+		return rightBitshiftBigInt(i, -other)
+	}
 	return leftBitshiftBigInt(i, other)
 }
 
@@ -1290,7 +1321,7 @@ func (i *BigInt) BitwiseAndNotInt(other Value) Value {
 
 func (i *BigInt) BitwiseAndNotSmallInt(other SmallInt) Value {
 	oBigInt := big.NewInt(int64(other))
-	oBigInt.And(i.ToGoBigInt(), oBigInt)
+	oBigInt.AndNot(i.ToGoBigInt(), oBigInt)
 	result := ToElkBigInt(oBigInt)
 	if result.IsSmallInt() {
 		return result.ToSmallInt().ToValue()
@@ -1299,7 +1330,7 @@ func (i *BigInt) BitwiseAndNotSmallInt(other SmallInt) Value {
 }
 
 func (i *BigInt) BitwiseAndNotBigInt(other *BigInt) Value {
-	result := ToElkBigInt((&big.Int{}).And(i.ToGoBigInt(), other.ToGoBigInt()))
+	result := ToElkBigInt((&big.Int{}).AndNot(i.ToGoBigInt(), other.ToGoBigInt()))
 	if result.IsSmallInt() {
 		return result.ToSmallInt().ToValue()
 	}
